@@ -297,7 +297,7 @@ def c04():
     cfgs = []
     for mc in (1, 3, 5):
         for fe in (None, 0.0, 0.3):
-            for es in (None, (1, 0.1), (2, 0.05), (2, 1.0), (3, 1.0)):
+            for es in (None, (1, 0.1), (2, 0.05), (2, 1.0), (3, 1.0), (None, 0.5), (2, None), (None, None)):   # None = model default
                 cfgs.append((mc, fe, es))
     hists = list(it.product(vals, repeat=4))[::3] + [(0.6, 0.5, 0.45, 0.42, 0.41, 0.405), (0.3, 0.3, 0.3, 0.3), (0.0, 0.0, 0.0, 0.0),
                                                      (0.31, 0.3, 0.29, 0.0), (0.6, 0.59, 0.58, 0.57, 0.56)]
